@@ -276,7 +276,10 @@ func c07Writers(c *Ctx, m *Module) {
 	r.Check("C07.only-expired", "parseCountFile/reads with os.ReadFile", m.Pos(pc.Pos()), len(callsIn(pc, "os.ReadFile")) == 1 && len(callsIn(pc, "internal/counter.Parse")) == 1, "count files are read, never mapped or written, by the uploader")
 }
 
-func c07Accumulate(c *Ctx, m *Module) {
+func c07Accumulate(c *Ctx, m *Module) { c07AccumulateAs(c, m, "C07.accumulate") }
+
+// c07AccumulateAs: shared with C11 (data is folded under the program build it was counted for).
+func c07AccumulateAs(c *Ctx, m *Module, rule string) {
 	r := c.R
 	cr := m.Func("internal/upload", "uploader.createReport")
 	n := 0
@@ -311,11 +314,11 @@ func c07Accumulate(c *Ctx, m *Module) {
 				}
 			}
 		}
-		r.Check("C07.accumulate", "createReport/prog."+fld+"[k] += v", m.Pos(mu.Pos()), okAcc,
+		r.Check(rule, "createReport/prog."+fld+"[k] += v", m.Pos(mu.Pos()), okAcc,
 			"the fold must add the file's value to the entry of the same key (never overwrite); got "+describe(mu.Value))
 		isStack := hasFact(factsAt(mu), callResultIs("internal/counter.IsStackCounter", true, func(a []ssa.Value, _ *ssa.Call) bool { return a[0] == mu.Key }))
 		notStack := hasFact(factsAt(mu), callResultIs("internal/counter.IsStackCounter", false, func(a []ssa.Value, _ *ssa.Call) bool { return a[0] == mu.Key }))
-		r.Check("C07.accumulate", "createReport/prog."+fld+" selected by the newline test", m.Pos(mu.Pos()), (fld == "Stacks" && isStack) || (fld == "Counters" && notStack),
+		r.Check(rule, "createReport/prog."+fld+" selected by the newline test", m.Pos(mu.Pos()), (fld == "Stacks" && isStack) || (fld == "Counters" && notStack),
 			"names with a newline go to Stacks, all others to Counters")
 		// the ranged map is x.Count of the file parsed in this iteration, and prog = findProgReport(x.Meta, report)
 		if ke, ok := strip(mu.Key).(*ssa.Extract); ok {
@@ -324,17 +327,17 @@ func c07Accumulate(c *Ctx, m *Module) {
 				cb, cf, okc := fieldLoad(rg.X)
 				fp := strip(base).(*ssa.Call)
 				mb, mf, okm := fieldLoad(fp.Call.Args[0])
-				r.Check("C07.accumulate", "createReport/"+fld+" folded from the same parsed file as the identity", m.Pos(mu.Pos()),
+				r.Check(rule, "createReport/"+fld+" folded from the same parsed file as the identity", m.Pos(mu.Pos()),
 					okc && okm && cf == "Count" && mf == "Meta" && strip(cb) == strip(mb) && strings.HasPrefix(describe(cb), "(*internal/upload.uploader).parseCountFile("),
 					"counts and identity metadata must come from one parse result")
 			}
 		}
 	}
-	r.Check("C07.accumulate", "createReport/fold sites", m.Pos(cr.Pos()), n == 2, fmt.Sprintf("%d fold sites (want Stacks and Counters)", n))
+	r.Check(rule, "createReport/fold sites", m.Pos(cr.Pos()), n == 2, fmt.Sprintf("%d fold sites (want Stacks and Counters)", n))
 	// every file of the list is parsed: the loop ranges over the countFiles parameter
 	for _, cs := range callsIn(cr, "(*internal/upload.uploader).parseCountFile") {
 		d := describe(cs.Common().Args[1])
-		r.Check("C07.accumulate", "createReport/parses each given file", m.Pos(cs.Pos()), strings.HasPrefix(d, "param:countFiles["), "got "+d)
+		r.Check(rule, "createReport/parses each given file", m.Pos(cs.Pos()), strings.HasPrefix(d, "param:countFiles["), "got "+d)
 	}
 }
 
